@@ -169,7 +169,8 @@ def run_check(prop, tier, verif_seed, workers=None, n_override=None, repo=None, 
         for k, v in (res.get("fired") or {}).items():
             stats["fired"][k] = stats["fired"].get(k, 0) + v
         for k, v in (res.get("probes") or {}).items():
-            stats["probes"][k] = stats["probes"].get(k, 0) + v
+            if not k.startswith("_"):
+                stats["probes"][k] = stats["probes"].get(k, 0) + v
         stats["vtime"] += res.get("vtime") or 0.0
         for k in res.get("state_keys") or []:
             stats["state_keys"].add(k)
